@@ -11,7 +11,8 @@ from vlib import common, realrun, workload
 
 
 def make_case(r):
-    kind = r.choice(['eq', 'let', 'dt', 'empty', 'general', 'fresh', 'fresh'])
+    kind = r.choice(['eq', 'let', 'dt', 'empty', 'general', 'fresh', 'fresh',
+                     'defs'])
     extra = []
     if kind == 'eq':
         lines = ['(declare-const a Int)', '(declare-const b Int)',
@@ -41,6 +42,17 @@ def make_case(r):
                  '--replace-by-variable', '--substitute-children']
         if r.random() < 0.5:
             extra += ['--erase-node']
+    elif kind == 'defs':
+        # inlining after other accepted steps: the body of an untouched
+        # define-fun command is inserted into another command
+        nullary = r.random() < 0.5
+        lines = ['(set-logic QF_NIA)', '(declare-const a Int)',
+                 '(declare-const b Int)',
+                 '(define-fun f () Int (+ a (* 2 b)))' if nullary else
+                 '(define-fun f ((x Int)) Int (+ x (* 2 b)))',
+                 '(assert (< a 5))',
+                 '(assert (> f 0))' if nullary else '(assert (> (f a) 0))',
+                 '(check-sat)']
     elif kind == 'empty':
         lines = ['(declare-fun f () Int)', '(declare-fun g () Int)',
                  '(assert (= f () g ()))', '(assert (= () (() ())))',
@@ -53,6 +65,11 @@ def make_case(r):
     rules, pred = workload.pick_spec(r, text, families=['all', 'has',
                                                         'count', 'ntok',
                                                         'hash'])
+    if kind == 'defs':
+        # f defined and used, or its body present twice (inlined)
+        rules = realrun.simple_spec(
+            'count:f>=2 count:%2A>=2 | has:define-fun & has:assert & '
+            'count:%2A>=1 & count:b>=2 & count:%2B>=1 &')
     if kind == 'fresh':
         k = r.randint(1, 3)
         rules = realrun.simple_spec(
